@@ -261,6 +261,12 @@ fn exec_framebuf(
             }
             Ok(Ok(())) => {}
         }
+        if data_seed % 3 == 1 && i % 2 == 1 {
+            // the frame is encoded from a clone made after the fill (a copy handed to another part of the
+            // program): it must hold what the original holds
+            let c = fb.clone();
+            fb = c;
+        }
         if fb.filled_size() != st.len {
             return Ok(Some(viol(
                 "delivery_mode_mismatch",
